@@ -156,6 +156,18 @@ static std::string synth_ascii_schema(const std::string& id, const std::string& 
                       "    Control_L: commit_code\n    Control_R: clear\n    Caps_Lock: clear\n    Eisu_toggle: clear\n");
 }
 
+// synth_acedit_express / synth_acedit_fluid: synth_punct_* with ascii_composer first and ascii_segmentor first (no key binder):
+// a chain of C05's theorem (coq/Eng/Oracle.v: synth_acedit_cfg; keep in sync)
+static std::string synth_acedit_schema(const std::string& id, const std::string& editor, bool fluid) {
+  std::string y = synth_punct_schema(id, editor, fluid);
+  replace_all(y, "  processors:\n    - speller\n", "  processors:\n    - ascii_composer\n    - speller\n");
+  replace_all(y, "  segmentors:\n    - abc_segmentor\n", "  segmentors:\n    - ascii_segmentor\n    - abc_segmentor\n");
+  return y + (fluid ? "ascii_composer:\n  good_old_caps_lock: false\n  switch_key:\n    Shift_L: commit_code\n    Shift_R: inline_ascii\n"
+                      "    Control_L: noop\n    Control_R: commit_text\n    Caps_Lock: commit_text\n    Eisu_toggle: inline_ascii\n"
+                    : "ascii_composer:\n  good_old_caps_lock: true\n  switch_key:\n    Shift_L: inline_ascii\n    Shift_R: commit_text\n"
+                      "    Control_L: commit_code\n    Control_R: clear\n    Caps_Lock: clear\n    Eisu_toggle: clear\n");
+}
+
 // the virtual steady clock of gear/ascii_composer.cc (hook, RIME_VERIF_HOOKS): op "tick <ms>" advances it
 namespace rime { extern long long verif_ascii_clock_ms; }
 
@@ -167,6 +179,7 @@ static void prepare(const std::string& shared, const std::string& kind) {
                    "  - schema: synth_punct_express\n  - schema: synth_punct_fluid\n"
                    "  - schema: synth_kb_express\n  - schema: synth_kb_fluid\n"
                    "  - schema: synth_ascii_express\n  - schema: synth_ascii_fluid\n"
+                   "  - schema: synth_acedit_express\n  - schema: synth_acedit_fluid\n"
                    "switcher:\n  caption: \"[verif]\"\n  hotkeys: []\nmenu:\n  page_size: 5\n");
     vh::write_file(shared + "/synth_express.schema.yaml", synth_schema("synth_express", "express_editor"));
     vh::write_file(shared + "/synth_fluid.schema.yaml", synth_schema("synth_fluid", "fluid_editor"));
@@ -176,6 +189,8 @@ static void prepare(const std::string& shared, const std::string& kind) {
     vh::write_file(shared + "/synth_kb_fluid.schema.yaml", synth_kb_schema("synth_kb_fluid", "fluid_editor", true));
     vh::write_file(shared + "/synth_ascii_express.schema.yaml", synth_ascii_schema("synth_ascii_express", "express_editor", false));
     vh::write_file(shared + "/synth_ascii_fluid.schema.yaml", synth_ascii_schema("synth_ascii_fluid", "fluid_editor", true));
+    vh::write_file(shared + "/synth_acedit_express.schema.yaml", synth_acedit_schema("synth_acedit_express", "express_editor", false));
+    vh::write_file(shared + "/synth_acedit_fluid.schema.yaml", synth_acedit_schema("synth_acedit_fluid", "fluid_editor", true));
   } else {
     const char* files[] = {"cangjie5.dict.yaml", "cangjie5.schema.yaml", "default.yaml", "essay.txt",
                            "luna_pinyin.dict.yaml", "luna_pinyin.schema.yaml", "symbols.yaml"};
